@@ -158,6 +158,9 @@ func (f *g2lFn) mapAssign(x *ast.IndexExpr, val string, ind int) ([]string, bool
 
 // builtinOther: make(map[K]V) and make(map[K]V, n).
 func (f *g2lFn) builtinOther(name string, c *ast.CallExpr) (string, bool) {
+	if s, ok := f.builtinOwn(name, c); ok { // go2lean_own.go: new(T), make([]T, n)
+		return s, true
+	}
 	if name != "make" || len(c.Args) < 1 || !f.g.cfg.Maps {
 		return "", false
 	}
